@@ -1,0 +1,14 @@
+//go:build verif
+// +build verif
+
+// Contracts for deductive verification (comment-only; compiled only with -tags verif).
+// Checked by /verif/bin/govc against the go/ssa form of the real functions.
+
+package nutsdb
+
+//@ spec func expiredAt(ttl uint32, ts uint64, now int64) bool = !(ttl == 0 || now < ts + ttl)
+
+//@ func IsExpired
+//@   ensures[C01,C19] result == expiredAt(ttl, timestamp, clock)
+//@   modifies nothing
+//@   safety[C01,C20] panics overflow
